@@ -134,6 +134,27 @@ def gen_l2(ctx, hp, workdir_token):
     inner = [["@x9", "i1"], ["@x0", "i2"]]
     exp = inner + [["@x5", "o1"], ["@x0", "probe", "a5"]] + [["@x8", "o2"]] + inner + [["@x0", "probe", "b0"]] + [["@x8", "o2"]] + inner + [["@x0", "then"]]
     cases.append(dict(files={"main.sh": text}, main="main.sh", args=[], expect=(exp, 0), known=None, tag="func-nested"))
+    # positional parameters IN THE CONDITION LINE of if / else-if / while heads -- script with arguments and function with
+    # arguments ($0 $1 ${2} $@, a missing one): the helper of the condition records what it was given
+    cond_main = ("if %s\n%s\nelse if %s\n%s\nfi\nif %s\n%s\nelse if %s\n%s\nfi\nwhile %s\n%s\nbreak\ndone\n" % (
+        H(0, "c1", "$1", "${2}", "$0", "x$3y"), H(0, "then1"), H(0, "never"), H(0, "never2"),
+        H(1, "c2", "$2"), H(0, "never3"), H(0, "c3", "p$@q", "${1}"), H(0, "elif-body", "$1"),
+        H(0, "w", "$1", "$2"), H(0, "wbody")))
+    exp = [["@x0", "c1", "aa", "bb", W + "/main.sh", "xy"], ["@x0", "then1"],
+           ["@x1", "c2", "bb"], ["@x0", "c3", "paa", "bbq", "aa"], ["@x0", "elif-body", "aa"],
+           ["@x0", "w", "aa", "bb"], ["@x0", "wbody"]]
+    cases.append(dict(files={"main.sh": cond_main}, main="main.sh", args=["aa", "bb"], expect=(exp, 0), known=None, tag="cond-args-script"))
+    cond_fn = ("function cf {\nif %s\n%s\nfi\nwhile %s\nbreak\ndone\n}\ncf p1 q2\n" % (
+        H(0, "fc", "$0", "$1", "x${2}y", "z$3"), H(0, "fthen", "$2"), H(0, "fw", "$@")))
+    exp = [["@x0", "fc", "cf", "p1", "xq2y", "z"], ["@x0", "fthen", "q2"], ["@x0", "fw", "p1", "q2"]]
+    cases.append(dict(files={"main.sh": cond_fn}, main="main.sh", args=[], expect=(exp, 0), known=None, tag="cond-args-func"))
+    # set -e must survive a function call / be honoured inside the called function
+    text = "function ok_fn {\n%s\n}\nset -e\n%s\nok_fn a\n%s\n%s\n%s\n" % (H(0, "in-fn", "$1"), H(0, "one"), H(0, "two"), H(7, "bad"), H(0, "notreached"))
+    cases.append(dict(files={"main.sh": text}, main="main.sh", args=[],
+                      expect=([["@x0", "one"], ["@x0", "in-fn", "a"], ["@x0", "two"], ["@x7", "bad"]], 7), known=None, tag="sete-after-call"))
+    text = "function bad-fn() {\n%s\n%s\n%s\n}\nset -e\n%s\nbad-fn\n%s\n" % (H(0, "start"), H(5, "fail"), H(0, "fn-notreached"), H(0, "one"), H(0, "notreached"))
+    cases.append(dict(files={"main.sh": text}, main="main.sh", args=[],
+                      expect=([["@x0", "one"], ["@x0", "start"], ["@x5", "fail"]], 5), known=None, tag="sete-in-call"))
     # function call as the last command: status of the script
     cases.append(dict(files={"main.sh": "function f {\n%s\n}\nf\n" % H(4, "fm")}, main="main.sh", args=[],
                       expect=([["@x4", "fm"]], 4), known=None, tag="func-last"))
@@ -388,6 +409,7 @@ def run(ctx, res):
             toks.append("".join(t))
     for _ in range(20000 if ctx.thorough else 2000):
         toks.append("".join(rng.choice(ALPHA + ["$", "$", "b", " ", "é", "10", "${", "\r"]) for _ in range(rng.randint(6, 24))))
+    toks = ["${10}", "${11}x", "a${10}b", "$10", "${9}${10}", "${12}", "x${10", "$@${10}"] + toks     # fixed: two-digit indices
     lines, keys = [], []
     for t in toks:
         lines.append(C.case("isargs", t)); keys.append(("isargs", t, None))
